@@ -419,7 +419,7 @@ def stepFpi (st : DState) (cmd : String) (args : List String) : DState × String
             | none => []
           let mix : Nat → List (List Rat) → List (List Rat) → List Rat := fun k _ _ => ps.getD (k + 1) []
           let s0 : FpiState := { prev := ps.getD 0 [], y := [] }
-          let s := fpiRun F mix t m (m + 2) s0 [] []
+          let s := fpiRunGen F mix t m (m + 2) s0 [] []
           (st, s!"conv={s.conv} valid={s.valid} sweeps={s.k + 1} y={showRats s.y}")
       | _, _, _, _ => (st, "bad-op")
   | _, _ => (st, "bad-op")
